@@ -81,19 +81,19 @@ def _evict_cache():
         pass
 
 
-def dump_path(unit_path, extra_flags=()):
+def dump_path(unit_path, extra_flags=(), filt='phosg'):
     """Return the path of the JSON dump for unit_path at the current source state,
     producing it with clang if it is not cached."""
     flags = base_flags() + list(extra_flags)
     os.makedirs(CACHE, exist_ok=True)
     key = _source_state_hash(unit_path, flags)
-    out = os.path.join(CACHE, '%s-%s.json' % (os.path.basename(unit_path), key))
+    out = os.path.join(CACHE, '%s-%s%s.json' % (os.path.basename(unit_path), key, '' if filt == 'phosg' else '-' + filt))
     if os.path.exists(out):
         os.utime(out, None)
         return out
     tmp = out + '.tmp%d' % os.getpid()
     cmd = ['clang++'] + flags + ['-fsyntax-only', '-Xclang', '-ast-dump=json',
-                                 '-Xclang', '-ast-dump-filter=phosg', unit_path]
+                                 '-Xclang', '-ast-dump-filter=' + filt, unit_path]
     with open(tmp, 'wb') as f:
         r = subprocess.run(cmd, stdout=f, stderr=subprocess.PIPE)
     if r.returncode != 0:
@@ -248,6 +248,9 @@ def src_text(n, limit=200):
 # --------------------------------------------------------------------------
 # unit loading
 
+DECLS = {}   # decl id -> node, across all loaded units (ids are unique per clang run; used for constness lookups)
+
+
 class Unit:
     def __init__(self, path, roots):
         self.path = path
@@ -270,6 +273,7 @@ class Unit:
                     # brief references (e.g. the specialisation list of a template) carry no children
                     if old is None or ('inner' not in old and 'inner' in n):
                         self.by_id[i] = n
+                        DECLS.setdefault(i, []).append(n)
                 if k in FUNC_KINDS:
                     self.all_functions.append(n)
                     if body_of(n) is not None:
@@ -531,6 +535,26 @@ def load_unit(unit_path, extra_flags=()):
     u = Unit(unit_path, roots)
     _units[key] = u
     return u
+
+
+_aux = {}
+
+
+def aux_decls(unit_path, filt):
+    """Declarations outside namespace phosg whose name contains filt (e.g. the
+    std::holds_alternative specialisations used by a unit): id -> node."""
+    key = (unit_path, filt)
+    if key in _aux:
+        return _aux[key]
+    roots = decode_dump(dump_path(unit_path, (), filt))
+    out = {}
+    for r in roots:
+        for n in walk(r):
+            i = n.get('id')
+            if i and (n.get('kind') or '').endswith('Decl') and ('inner' in n or i not in out):
+                out[i] = n
+    _aux[key] = out
+    return out
 
 
 def repo_unit(name):
